@@ -261,13 +261,12 @@ def r2(ctx):
         # emitted bytes = header + ciphertext
         asg = c._parent
         ok = False
-        if isinstance(asg, ast.Assign) and isinstance(asg.targets[0], ast.Name):
-            ct = asg.targets[0].id
-            for r in walk_own(to.node):
-                if isinstance(r, ast.Return) and isinstance(r.value, ast.BinOp) and isinstance(r.value.op, ast.Add) \
-                        and norm(r.value.right) == ct:
-                    left = whole_header(r.value.left, r)
-                    ok = left is not None and left is aad_src
+        ct = asg.targets[0].id if isinstance(asg, ast.Assign) and isinstance(asg.targets[0], ast.Name) else None
+        for r in walk_own(to.node):
+            if isinstance(r, ast.Return) and isinstance(r.value, ast.BinOp) and isinstance(r.value.op, ast.Add) \
+                    and ((ct is not None and norm(r.value.right) == ct) or r.value.right is c):
+                left = whole_header(r.value.left, r)
+                ok = left is not None and left is aad_src
         ctx.check(ok, "C01.R2", to, "seal: datagram == aad header + ciphertext", "the bytes sent are the authenticated header followed by the ciphertext",
                   line=c.lineno)
 
